@@ -32,7 +32,7 @@ def load_contract(with_path):
 def load_loop():
     return LoopContract(PQ + "load", 0, invariant=[H("C14/nothing-registered-before-the-first-record", "implies(set_empty(done), same_dict(self.nodes))")], modifies=["self.nodes[...]"] + JSON_OBJECTS,
                         # A-JSON (tree shape): the records the hooks rewrite are the *values* of the top-level object, never that object itself
-                        assume_iterated_untouched=True)
+                        assume_iterated_untouched=True, calls="load")
 
 
 SCHEMA_HARNESS = {
@@ -89,7 +89,7 @@ def save_own_contract():
 def save_loop():
     return LoopContract(PQ + "save", 0,
                         invariant=[H("C13/dumped-so-far", "forall(lambda k: (k in data) == (k in done))")],
-                        modifies=["data[...]"])
+                        modifies=["data[...]"], calls="dump")
 
 
 def start_contract():
